@@ -208,6 +208,23 @@ Definition cmp_bytes (model obs : list Z) : sexp :=
 
 Definition run_case (s : sexp) : sexp :=
   match s with
+  | L [S n; L lines; L sb; L ss; L sj] =>
+    (* one history under the three disciplines *)
+    if bytes_eqb n (str "hist3") then
+      match dec_lines lines, dec_steps sb, dec_steps ss, dec_steps sj with
+      | Some ls, Some b, Some st, Some j =>
+        let vb := judge_hist DBatch ls b (fun _ _ => None) in
+        let vs := judge_hist DStream ls st (fun _ _ => None) in
+        let vj := judge_hist DSer ls j (fun _ _ => None) in
+        let is_ok v := match v with L (S k :: _) => bytes_eqb k (str "ok") | _ => false end in
+        let tagd (d : string) v := match v with L xs => L (xs ++ [sym d]) | _ => v end in
+        if negb (is_ok vb) then tagd "batch" vb
+        else if negb (is_ok vs) then tagd "stream" vs
+        else if negb (is_ok vj) then tagd "ser" vj
+        else v_ok (negb (is_nil (List.concat (map fst b))) || negb (is_nil (List.concat (map fst st))))
+      | _, _, _, _ => v_badcase
+      end
+    else v_badcase
   | L [S n; dsx; L lines; L steps] =>
     if bytes_eqb n (str "hist") then
       match dec_disc dsx, dec_lines lines, dec_steps steps with
